@@ -52,7 +52,7 @@ _CFG = {
     "C01": {"scenarios": ["fold", "term"], "streams": [PTRACE], "trusted": RUNTIME_TRUST},
     "C02": {"scenarios": ["cmds"], "streams": [PTRACE, CMDFNS], "trusted": RUNTIME_TRUST},
     "C03": {"scenarios": ["seq"], "streams": [CMDFNS], "trusted": RUNTIME_TRUST},
-    "C04": {"scenarios": ["term", "pty"], "streams": [LIFE, LTRACE, READER], "trusted": RUNTIME_TRUST},
+    "C04": {"scenarios": ["term", "pty", "sigexec"], "streams": [LIFE, LTRACE, READER], "trusted": RUNTIME_TRUST},
     "C05": {"scenarios": ["modes", "exec", "pty"], "streams": [GLUE], "trusted": RENDER_TRUST},
     "C06": {"streams": [VT, RENDER_INFO], "scenarios": ["wide"], "rule": RENDER_RULE, "trusted": RENDER_TRUST},
     "C07": {"streams": [VT, RENDER_INFO], "scenarios": ["final"], "rule": RENDER_RULE, "trusted": RENDER_TRUST},
@@ -61,11 +61,11 @@ _CFG = {
             "assumptions": ["the reader goroutine's cancellation (ctx.Done arm of the send) is covered by the C04 scenarios, not by this model"]},
     "C10": {"streams": [DETECT, READER], "rule": INPUT_RULE, "trusted": INPUT_TRUST},
     "C11": {"streams": [DETECT, READER], "rule": INPUT_RULE, "trusted": INPUT_TRUST},
-    "C12": {"scenarios": ["modes"], "streams": [GLUE], "trusted": RENDER_TRUST},
+    "C12": {"scenarios": ["modes", "exec"], "streams": [GLUE], "trusted": RENDER_TRUST},
     "C13": {"scenarios": ["api"], "streams": [LIFE, LTRACE], "trusted": RUNTIME_TRUST},
     "C14": {"streams": [VT, RENDER_INFO], "scenarios": ["prints"], "rule": RENDER_RULE, "trusted": RENDER_TRUST},
     "C15": {"streams": [DETECT, READER], "rule": INPUT_RULE, "trusted": INPUT_TRUST},
-    "C16": {"scenarios": ["filter"], "streams": [PTRACE], "trusted": RUNTIME_TRUST},
+    "C16": {"scenarios": ["filter", "pty"], "streams": [PTRACE], "trusted": RUNTIME_TRUST},
     "C17": {"scenarios": ["exec", "pty"], "streams": [GLUE], "trusted": RENDER_TRUST + ["input hand-over to the exec'd command depends on cancelreader/epoll semantics: observed on an os.Pipe, not proved"]},
     "C18": {"scenarios": ["pty", "term", "sigexec"], "trusted": RUNTIME_TRUST + ["kernel signal delivery, os/signal.Notify, TIOCGWINSZ/SIGWINCH are outside the model: observed on a pty, not proved"]},
     "C19": {"streams": [RENDER_LE, {"name": "fps", "quick": 2000, "thorough": 100000}], "scenarios": ["frames"], "rule": RENDER_RULE, "trusted": RENDER_TRUST},
